@@ -144,6 +144,24 @@ def mergeFate (i : MergeIn) : Fate :=
   else if i.textConflict then .helper
   else .merged
 
+/-! ### merge hashes (`merge_modified`) -/
+
+/-- what an incoming revision does to one file, as far as `Merge3Merger.write_modified` is concerned -/
+structure RecordIn where
+  otherChangedContent : Bool   -- the text differs between BASE and OTHER: the merge writes a text
+  otherAdded : Bool            -- the file is new in OTHER: the merge writes it
+  onlyMoved : Bool             -- OTHER only renames / moves the file
+  deriving DecidableEq, Repr
+
+/-- is the path recorded in `merge-hashes` ("written by merge") after the merge?  Only paths
+whose *contents* the transform created (`apply().modified_paths`) -/
+def mergeRecords (i : RecordIn) : Bool := i.otherChangedContent || i.otherAdded
+
+/-- the inputs of a later revert for a file that went through a merge-like command: the
+`merge_modified` test of `_alter_files` succeeds only for a recorded path that was not edited since -/
+def afterMerge (r : RecordIn) (editedSince : Bool) (i : RevertIn) : RevertIn :=
+  { i with mergeModifiedIsWt := mergeRecords r && !editedSince }
+
 /-! ### uncommit -/
 
 structure WState where
